@@ -3,7 +3,7 @@
    Model: Model/Dates.v (integer ticks, `dlen` ticks per day; get_period_offsets as repaired by
    work/C20/fix-F-C20c.diff).  Spec: Spec/DatesSpec.v. *)
 From Coq Require Import ZArith List Bool Lia.
-From EV Require Import Res Arr Dates DatesSpec DatesProofs.
+From EV Require Import Res Arr Dates DatesSpec DatesProofs DatesAlgebra.
 Import ListNotations.
 Open Scope Z_scope.
 
@@ -83,6 +83,25 @@ Theorem get_days_day_is_floor : forall dlen o t q, 0 < dlen ->
   ((t - o) / dlen = q <-> o + q * dlen <= t < o + (q + 1) * dlen).
 Proof. exact day_floor. Qed.
 Print Assumptions get_days_day_is_floor.
+
+(* (full) day numbers depend only on the offsets from the origin: shifting every timestamp and the
+   origin by the same k (a change of epoch or time zone) leaves every day number unchanged *)
+Theorem get_days_shift_invariant : forall dlen o k ts,
+  days_spec dlen (o + k) (map (fun t => t + k) ts) = days_spec dlen o ts.
+Proof. exact days_shift_invariant_pf. Qed.
+Print Assumptions get_days_shift_invariant.
+
+(* (full) day numbers are monotone in the timestamp: a later row never gets an earlier day *)
+Theorem get_days_monotone : forall dlen o ts i j, 0 < dlen ->
+  0 <= i < len ts -> 0 <= j < len ts -> nthZ ts i <= nthZ ts j ->
+  nthZ (days_spec dlen o ts) i <= nthZ (days_spec dlen o ts) j.
+Proof. exact days_monotone_pf. Qed.
+Print Assumptions get_days_monotone.
+
+Example get_days_shift_monotone_ex :
+  days_spec 86400 (5 + 3600) (map (fun t => t + 3600) [172800; 86400; 5; 259200]) = [1; 0; 0; 2] /\
+  days_spec 86400 5 [172800; 86400; 5; 259200] = [1; 0; 0; 2].
+Proof. vm_compute. split; reflexivity. Qed.
 
 (* a flagged (in-range) day is never negative *)
 Theorem get_days_flagged_day_nonneg : forall dlen ts f s e o j,
